@@ -1665,3 +1665,62 @@ def beam_rule(ctx, rid="R1.E3"):
             cantilever2d((Q(3), Q(4), Q(0)), Q(5), "end", split=True),
             cantilever3d((Q(3), Q(0), Q(0)), Q(3), (Q(0), Q(1), Q(0))), cantilever3d((Q(1), Q(2), Q(2)), Q(3), (Q(2, 3), Q(-2, 3), Q(1, 3)))]
     run_scenarios(ctx, r, scen)
+
+
+# ---------------------------------------------------------------------------------------------------------------------
+# heterogeneous parameters (fields given per element / per integration point), on the coincidence Ne == nPg
+def heterogeneous_rule(ctx, rid="R2.E3"):
+    repo = ctx.repo
+    r = ctx.rule(rid, "heterogeneous parameters end to end on a mesh where the number of elements equals the number of integration points (4 QUAD4, 4-point rules): a Young modulus given per element (Ne,) - and the same values repeated per integration point (Ne, nPg) - gives K = scatter-add of E_e / E0 times the homogeneous element matrices; a density given per element gives M likewise; symmetric, rigid-body motions in the kernel", min_instances=3)
+    anchor = repo.lookup_method(repo.cls(ELASTIC), "Construct_local_matrix_system")
+    W0 = World(repo)
+
+    def scenario(kind):
+        def thunk():
+            W = World(repo, lib=W0.lib)
+            md, mesh = domain_mesh(W, "QUAD4")
+            dim, ne = 2, len(md.groups["QUAD4"])
+            E0 = Q(3)
+            vals = [Q(2), Q(5), Q(7), Q(11)][:ne]
+            # homogeneous reference element matrices
+            mat0, simu0 = elastic(W, mesh, dim, E=E0)
+            W.set(simu0, "rho", Q(1))
+            loc = W.call(simu0, "Construct_local_matrix_system", "elastic")
+            blocks = list(loc.values())[0]
+            W2 = World(repo, lib=W0.lib)
+            md2, mesh2 = domain_mesh(W2, "QUAD4")
+            npg = 4
+            if kind == "E per element":
+                Earg = XArray((ne,), list(vals))
+            elif kind == "E per point":
+                Earg = XArray((ne, npg), [v for v in vals for _ in range(npg)])
+            else:
+                Earg = E0
+            mat, simu = elastic(W2, mesh2, dim, E=Earg)
+            if kind == "rho per element":
+                W2.set(simu, "rho", XArray((ne,), list(vals)))
+            else:
+                W2.set(simu, "rho", Q(1))
+            K, C, M, F = W2.call(simu, "Get_K_C_M_F")
+            slot, A = (2, M) if kind.startswith("rho") else (0, K)
+            B = XArray.from_nested(blocks[slot])
+            rows = md.groups["QUAD4"]
+            nd = len(rows[0]) * dim
+            ref = {}
+            for e, row in enumerate(rows):
+                fac = vals[e] / (Q(1) if kind.startswith("rho") else E0)
+                dofs = [nn * dim + c for nn in row for c in range(dim)]
+                for a in range(nd):
+                    for b in range(nd):
+                        ref[(dofs[a], dofs[b])] = ref.get((dofs[a], dofs[b]), 0) + fac * B[e, a, b]
+            Ad = dense(A)
+            n = md.Nn * dim
+            for i in range(n):
+                for j in range(n):
+                    if not same(Ad[i][j], ref.get((i, j), 0)):
+                        return f"{kind} = {[str(v) for v in vals]} on 4 QUAD4 (Ne == nPg == 4): {'M' if slot == 2 else 'K'}[{i},{j}] = {polys(Ad[i][j])[0]}, the element matrices scaled element by element add up to {polys(ref.get((i, j), 0))[0]}: the field is not applied element by element"
+            return None
+
+        return (f"heterogeneous {kind}", anchor, thunk)
+
+    run_scenarios(ctx, r, [scenario("E per element"), scenario("E per point"), scenario("rho per element")])
